@@ -204,13 +204,13 @@ theorem emitted_has_no_severity_section (o : OcDoc) :
 /-! ### the full statement fails for user-defined severities -/
 
 /-- the round trip as the property states it: reading the emitted fragment back (built-in severities
-    only, because `-oc` emits no `severity` section) reproduces the severity of every rule state -/
+    only, because `-oc` emits no `severity` section) succeeds and reproduces the severity of every rule state -/
 def OcReproducesSeverity : Prop :=
-  ∀ (r r0 r1 : RuleObj) (c : Attrs) (msgs : List String),
+  ∀ (r r0 : RuleObj) (c : Attrs),
     r0.id = r.id → r0.configuration = r.configuration → r0.deprecated = false →
     (∀ a ∈ r.configuration, a ≠ "severity" → dhas r0.dict a = true) →
     getConfiguration r = .ok c →
-    ruleConfigure (some builtinSevs) [(r.id, .attrs c)] r0 = .ok (r1, msgs) → r1.severity = r.severity
+    ∃ r1 msgs, ruleConfigure (some builtinSevs) [(r.id, .attrs c)] r0 = .ok (r1, msgs) ∧ r1.severity = r.severity
 
 def wDefault : RuleObj :=
   { id := "length_001", groups := ["length"],
@@ -224,20 +224,19 @@ def wDefault : RuleObj :=
 def wConfigured : RuleObj := { wDefault with severity := some ⟨"Future", "warning"⟩ }
 
 /-- witness on the model: the fragment says `severity: Future`; read back without the `severity` section
-    the rule's severity is None, and emitting again raises -/
+    the name is unknown — a configuration error since the repo repair of the severity look-up (before it
+    the rule's severity silently became None and emitting again raised) -/
 theorem user_severity_witness :
-    ∃ c r1, getConfiguration wConfigured = .ok c ∧
-      ruleConfigure (some builtinSevs) [("length_001", .attrs c)] wDefault = .ok (r1, []) ∧
-      r1.severity = none ∧ (getConfiguration r1).toOption = none := by
-  refine ⟨_, _, rfl, rfl, ?_⟩
-  decide
+    ∃ c, getConfiguration wConfigured = .ok c ∧
+      ruleConfigure (some builtinSevs) [("length_001", .attrs c)] wDefault = .error (.config "unknownSeverity" "Future") := by
+  exact ⟨_, rfl, rfl⟩
 
 theorem oc_roundtrip_fails_for_user_severities : ¬ OcReproducesSeverity := by
   intro h
-  obtain ⟨c, r1, hc, hr, hn, _⟩ := user_severity_witness
-  have := h wConfigured wDefault r1 c [] rfl rfl rfl (by decide) hc hr
-  rw [hn] at this
-  exact absurd this (by decide)
+  obtain ⟨c, hc, hr⟩ := user_severity_witness
+  obtain ⟨r1, msgs, hok, _⟩ := h wConfigured wDefault c rfl rfl rfl (by decide) hc
+  rw [show wConfigured.id = "length_001" from rfl, hr] at hok
+  cases hok
 
 /-! ### table fact -/
 
